@@ -107,7 +107,8 @@ Inductive transform :=
 | TAppend (bottom : rel)
 | TDistinct
 | TWinF (fr : frame) (keys : list (bool * expr)) (cols : list (option name * wfn * expr))
-| TGroupWinF (by_ : list name) (fr : frame) (keys : list (bool * expr)) (cols : list (option name * wfn * expr)).
+| TGroupWinF (by_ : list name) (fr : frame) (keys : list (bool * expr)) (cols : list (option name * wfn * expr))
+| TExclude (cs : list (option name * name)).   (* select !{...}: every column except the listed ones *)
 
 Definition take_range (s e : option Z) {A} (l : list A) : list A :=
   let off := match s with Some s => Z.to_nat (s - 1) | None => O end in
@@ -273,6 +274,18 @@ Definition apply (t : transform) (l : rel) : rel :=
   | TDistinct => dedup (S (length l)) l
   | TWinF fr keys cols => win_colsf fr keys cols l
   | TGroupWinF by_ fr keys cols => flat_map (fun g => map (by_first by_) (win_colsf fr keys cols (snd g))) (groups (S (length l)) by_ l)
+  | TExclude cs =>
+      map (fun r => filter (fun c : col =>
+             negb (existsb (fun qn : option name * name =>
+                     match c with
+                     | (cq, Some cn, _) =>
+                         N.eqb cn (snd qn) &&
+                         match fst qn with
+                         | None => true
+                         | Some q => match cq with Some cq' => N.eqb cq' q | None => false end
+                         end
+                     | _ => false
+                     end) cs)) r) l
   end.
 
 Definition run (base : rel) (ts : list transform) : rel := fold_left (fun l t => apply t l) ts base.
